@@ -697,13 +697,11 @@ class WorldG8 : public World
                     // sagitta delta_chord long) and feed into the position
                     ld hmax = std::sqrt(8 * radius * dc) + ms;
                     ld nest = 1 + (ld)res.distance / hmax;
-                    // ... but never less than the chord tolerance the property
-                    // names (where the gyroradius is not large against
-                    // delta_chord a step spans a large phase and the embedded
-                    // error estimate says little)
-                    // ... and never less than the chord tolerance the property names
-                    ld tolp = std::max(eps_rel * (ld)res.distance * (2 + nest), dc)
-                              + 3 * (di + ms) + 8 * tol + 1e-9L * scale + window / 8;
+                    // (three times that, as margin: the largest error seen on the
+                    // unchanged tree outside the recorded regimes, over 3e5 plans,
+                    // is 0.31 of it)
+                    ld tolp = 3 * eps_rel * (ld)res.distance * (2 + nest) + 3 * (di + ms) + 8 * tol
+                              + 1e-9L * scale + window / 8;
                     ld sinth = std::sqrt((ld)(hx.perp[0] * hx.perp[0] + hx.perp[1] * hx.perp[1]
                                               + hx.perp[2] * hx.perp[2]));
                     // regimes recorded as known findings, each under its own
@@ -959,7 +957,7 @@ class WorldG8 : public World
               "GeV; after a boundary hit the client crosses. Oracles per call: energy unchanged and "
               "unit direction; 0 < distance <= step; returned flag == geo.is_on_boundary(); "
               "outcome is full step / looping / boundary (a short unflagged step must be a bump <= "
-              "0.1 delta_intersection); end point within max(eps_rel_max*s*(2+n_steps), 2 delta_chord) + 3(delta_int+min_step) of "
+              "0.1 delta_intersection); end point within 3 eps_rel_max*s*(2+n_steps) + 3(delta_int+min_step) of "
               "the analytic helix; unflagged end points lie in the start volume; flagged ones lie "
               "on a reference surface, the helix before the hit stays in the start volume up to "
               "the chord tolerance, and the post-crossing volume is the one the path enters. "
@@ -976,7 +974,7 @@ class WorldG8 : public World
         d["assumptions"]
             = {"accuracy model of the driver: per integration step position error <= epsilon_rel_max*h "
                "and relative momentum error <= epsilon_rel_max, accumulated over s/sqrt(8 R "
-               "delta_chord) steps, never demanded below 2 delta_chord; intercept tolerance "
+               "delta_chord) steps, times 3; intercept tolerance "
                "delta_intersection, remainder below minimum_step; "
                "calibrated on the unchanged tree (max observed error/tolerance is reported)",
                "boundary features thinner than delta_chord may legitimately be missed"};
